@@ -105,9 +105,12 @@ SplitsTwo == UNION { UNION { { [base |-> b, files |-> SplitTwo(Bases[b], S1, S2,
 ValidSplit(sp) == \A p \in DOMAIN sp.files : sp.files[p] # <<>>
 
 (* error injection into one module file *)
+InvalidHows == {"param", "enumstr", "range1"}
+InjectHows == {"syntax", "unresolved", "deleted"} \cup InvalidHows
 Inject(sp, p, how) ==
     [sp EXCEPT !.inject = how, !.where = p,
                !.files = IF how = "deleted" THEN [q \in DOMAIN sp.files \ {p} |-> sp.files[q]]
                          ELSE [sp.files EXCEPT ![p] = IF how = "syntax" THEN Append(sp.files[p], [kind |-> "garbage"])
+                                                      ELSE IF how \in InvalidHows THEN Append(sp.files[p], [kind |-> "invalid", how |-> how])
                                                       ELSE Append(sp.files[p], St("Late", <<Fld("q", 0, Ref("Nowhere"))>>))]]
 =============================================================================
